@@ -273,6 +273,10 @@ def h_reader(h):
     import datetime
     t0 = datetime.datetime(1998, 12, 30, 22)
     stamps = [t0 + datetime.timedelta(hours=k) for k in range(n)]
+    if h.cfg.get("order") == "unordered" and n > 2:
+        # records appended out of order / overlapping deployments: the reader must keep file order
+        perm = rng.permutation(n)
+        stamps = [stamps[k] for k in perm]
     with tempfile.TemporaryDirectory(dir="/var/tmp") as td:
         p = os.path.join(td, "d.txt")
         with open(p, "w") as f:
@@ -307,4 +311,5 @@ def obligations(tier):
             yield ("plot_isodensity", h_plot_isodensity, {"rot": rot, "swap": swap, "grid": 3 if tier == "quick" else 5}, {})
         yield ("plot_quantiles", h_plot_quantiles, {"rot": rot}, {})
     for rows in (1, 3, 40):
-        yield ("reader", h_reader, {"rows": rows}, {})
+        for order in ("chronological", "unordered"):
+            yield ("reader", h_reader, {"rows": rows, "order": order}, {})
